@@ -16,9 +16,11 @@ NOFLOW = "nosuchflow xyz"
 P_UNTERMINATED = r"Sheet has unterminated block"
 P_WRONG = r"Wrong block terminator"
 P_BLOCK = P_UNTERMINATED + "|" + P_WRONG
-# a shifted block boundary may first surface as one of its consequences: an edge from the id of a
-# block that is no longer closed, or a loop variable used after the loop was closed early
-P_BLOCK_LOOSE = P_BLOCK + r'|Edge from row_id "[^"]*" which does not exist|is undefined'
+# a shifted block boundary (terminator deleted, block closed early, block opened inside another) may
+# first surface as one of its consequences at an earlier row — an edge from the id of a block that is
+# no longer closed, a loop variable used after its loop, "Block has no loose exit", … — so for those
+# variants the oracle asks for *a* named problem (a CRITICAL record or a traceback), not a particular one
+P_BLOCK_LOOSE = P_BLOCK + r"|CRITICAL: [^\n]+|Traceback \(most recent call last\)"
 
 
 def open_stack_at(rows, p):
